@@ -267,7 +267,14 @@ fn gen_table(rng: &mut Rng) -> Vec<Entry> {
                 0..=3 => 0,
                 4..=34 => rng.range(1, 6),
                 35..=38 => rng.range(7, 100),
-                _ => rng.range(2000, 2100), // > 8224 bytes: rgRun itself must span records
+                // > 8224 bytes: rgRun itself must span records; now and then >= 16384 runs (4 * cRun no longer fits 16 bits)
+                _ => {
+                    if rng.chance(1, 5) {
+                        rng.range(16384, 16500)
+                    } else {
+                        rng.range(2000, 2100)
+                    }
+                }
             } as usize;
             Some(rng.bytes(4 * k))
         } else {
@@ -1511,6 +1518,14 @@ fn corpus() -> Vec<(String, Option<String>)> {
     // 19 empty strings then "last": more strings than payload bytes / 4 (seeded change C12-m5: an entry estimate used as a bound)
     v.push((format!("case 20 {};6c00610073007400,~,~,0,1,-,-,-", vec!["-,~,~,0,0,-,-,-"; 19].join(";")), None));
     v.push((format!("file 3 case 20 {};6c00610073007400,~,~,0,1,-,-,-", vec!["-,~,~,0,1,-,-,-"; 19].join(";")), None));
+    // an entry with 16 384 rich-text runs: 4 * cRun = 65 536 (seeded change C12-m7: the product computed in 16 bits)
+    {
+        let mut rng = Rng::new(5);
+        let e = Entry { units: vec![0x61, 0x62], runs: Some(rng.bytes(4 * 16384)), ext: None };
+        let t = vec![e, Entry { units: vec![0x63], runs: None, ext: None }];
+        let ls = make_layout(&t, &mut rng, &style(&mut Rng::new(1), 0));
+        v.push((wire_table(2, &t, &ls), None));
+    }
     // whole file: BOM-like units at segment starts in SST, LABEL and a sheet name
     v.push(("file 1 case 1 6100fffe6200,~,~,0,1,1:1,-,-;fffe6100,~,~,0,1,-,-,-;-,~,~,0,1,-,-,-".into(), None));
     // fixed 9c57a3b (C06 overlap): header fields cut by a record end, negative cstUnique, cstUnique = 2^31-1 (reservation)
@@ -1767,7 +1782,7 @@ fn main() {
         "C12",
         "stage A: random shared-string tables (0-40 strings; lengths 0,1,2,..,300, some to 3000, in 1 table of 30 also 4111..32767 so that one \
          string spans several CONTINUE records; ASCII / Latin-1 / BMP / astral (surrogate pairs) / BOM-like and boundary \
-         code points; optional rgRun (0..2100 runs) and ExtRst (0..9000 bytes)) x 8 layouts per table (forced-cuts-only wide, \
+         code points; optional rgRun (0..2100 runs, rarely 16384..16500) and ExtRst (0..9000 bytes)) x 8 layouts per table (forced-cuts-only wide, \
          forced-cuts-only compressed, 6 random: cut density 1/400..9/10 per character boundary / run / ext byte, breaks \
          between strings, zero-length first segment, random 8/16-bit packing per segment whenever all units < 0x100); every \
          layout is checked `Legal` by the Lean spec (cuts never inside a header or a surrogate pair, records <= 8224 bytes); \
